@@ -115,6 +115,14 @@ pub fn codec(ctx: &mut Ctx) {
         let pp = p.clone();
         let a = ans(catch(move || libpna::verif::fprm_from_bytes(&pp)), |p| perm_s(&p));
         ctx.case(json!({"codec":"fprm"}), format!("fprm.dec {}", hexw(&p)), a, !p.is_empty());
+        // every prefix of a valid record (truncation inside each field)
+        if it % 10 == 0 && enc.len() < 700 {
+            for k in 0..enc.len() {
+                let pp = enc[..k].to_vec();
+                let a = ans(catch(move || libpna::verif::fprm_from_bytes(&pp)), |p| perm_s(&p));
+                ctx.case(json!({"codec":"fprm","prefix":k}), format!("fprm.dec {}", hexw(&enc[..k])), a, k > 0);
+            }
+        }
         // xATR
         let x = ExtendedAttribute::new(["user.a", "", "security.selinux", "ü.k"][rng.gen_range(0..4)].to_string(), { let k = size(&mut rng, 60); bytes(&mut rng, k) });
         let enc = libpna::verif::xattr_to_bytes(&x);
@@ -130,6 +138,13 @@ pub fn codec(ctx: &mut Ctx) {
             ctx.violation("C07", "xATR parser panicked", json!({"payload":hex(&p)}));
         }
         ctx.case(json!({"codec":"xatr"}), format!("xatr.dec {}", hexw(&p)), a, !p.is_empty());
+        if it % 10 == 0 {
+            for k in 0..enc.len() {
+                let pp = enc[..k].to_vec();
+                let a = ans(catch(move || libpna::verif::xattr_from_bytes(&pp)), |x| format!("{}:{}", hexw(x.name().as_bytes()), hexw(x.value())));
+                ctx.case(json!({"codec":"xatr","prefix":k}), format!("xatr.dec {}", hexw(&enc[..k])), a, k > 0);
+            }
+        }
         // names
         let s = gen_utf8_string(&mut rng);
         let n1 = EntryName::from(s.as_str());
@@ -298,6 +313,14 @@ pub fn entry(ctx: &mut Ctx) {
                     let m2 = meaning(&canon::entry_s(&e2));
                     if m1 != m2 {
                         ctx.violation("C13", "decode -> write -> decode changed the entry's meaning", json!({"chunks":wire,"label":label,"first":m1,"second":m2}));
+                        ctx.violation("C15", "an entry's metadata does not decode back to the value that was encoded (into_chunks)", json!({"chunks":wire,"label":label,"first":m1,"second":m2}));
+                    }
+                    // the streaming encoder (write_in) must decode back as well
+                    if let Ok(mut a) = libpna::Archive::read_header(&[&crate::gen::SIG[..], &frame(b"AHED", &[0; 8]), &wbytes[..], &frame(b"AEND", &[])].concat()[..]) {
+                        if let Some(Ok(e3)) = a.entries().next() {
+                            let m3 = meaning(&canon::entry_s(&e3));
+                            if m3 != m1 { ctx.violation("C15", "an entry's metadata does not decode back to the value that was encoded (write_in)", json!({"chunks":wire,"label":label,"first":m1,"second":m3})); }
+                        }
                     }
                     ctx.case(json!({"op":"reser2","label":label}), format!("entry.reser2 {wire}"), format!("ok {}", list_digest(&ser2)), true);
                 }
